@@ -1,6 +1,7 @@
 package rules
 
 import (
+	"golang.org/x/tools/go/packages"
 	"fmt"
 	"go/constant"
 	"go/token"
@@ -357,9 +358,26 @@ func (e *Env) sentinelProvenance() {
 	// provenance of every returned error in the metric packages
 	errsPkg := "github.com/goark/errs"
 	rels := []string{"v3/metric", "v2/metric"}
+	// internal packages the metric packages import (directly or through one another): code the metric packages
+	// share, its errors are theirs; an internal package only the report packages use (template plumbing) is not
+	imported := map[string]bool{}
+	var visit func(pk *packages.Package)
+	visit = func(pk *packages.Package) {
+		if pk == nil || imported[pk.PkgPath] {
+			return
+		}
+		imported[pk.PkgPath] = true
+		for _, ip := range pk.Imports {
+			if strings.HasPrefix(ip.PkgPath, load.ModPath+"/") {
+				visit(ip)
+			}
+		}
+	}
+	visit(e.P.Lib("v3/metric"))
+	visit(e.P.Lib("v2/metric"))
 	for _, rel := range e.P.LibRels() {
-		if load.IsInternal(load.ModPath + "/" + rel) {
-			rels = append(rels, rel) // code the metric packages share: its errors are theirs
+		if load.IsInternal(load.ModPath+"/"+rel) && imported[load.ModPath+"/"+rel] {
+			rels = append(rels, rel)
 		}
 	}
 	for _, rel := range rels {
